@@ -4,6 +4,7 @@
 package reqcase
 
 import (
+	"time"
 	"encoding/json"
 	"fmt"
 	"sort"
@@ -30,7 +31,7 @@ type HandlerSpec struct {
 	Calls     []string `json:"calls,omitempty"`
 	New       bool     `json:"new,omitempty"`
 	Auths     []string `json:"auths,omitempty"`
-	ValueMode string   `json:"valueMode,omitempty"` // behaviour of the get handler when called for Value(): ok, error, panic, none
+	ValueMode string   `json:"valueMode,omitempty"` // behaviour of the get handler when called for Value(): ok, error, panic, none, qmodel, collection, ... (see Build)
 	Group     string   `json:"group,omitempty"`
 	Parallel  bool     `json:"parallel,omitempty"`
 }
@@ -203,6 +204,33 @@ func Build(c *Case, rs *runState) *res.Service {
 					case "panic":
 						panic("value panic")
 					case "none":
+					case "qmodel":
+						r.QueryModel(map[string]interface{}{"v": 1}, "q=1")
+					case "collection":
+						r.Collection([]interface{}{1, "a"})
+					case "qcollection":
+						r.QueryCollection([]interface{}{1}, "q=1")
+					case "notfound":
+						r.NotFound()
+					case "invalidquery":
+						r.InvalidQuery("")
+					case "invalidquerymsg":
+						r.InvalidQuery("bad q")
+					case "nested":
+						_, _ = r.Value() // not allowed inside a get handler: panics
+					case "requirenested":
+						_ = r.RequireValue()
+					case "double":
+						r.Model(map[string]interface{}{"v": 1})
+						r.Model(map[string]interface{}{"v": 2})
+					case "timeoutmodel":
+						r.Timeout(time.Second)
+						r.Model(map[string]interface{}{"v": 1})
+					case "panicreserror":
+						panic(&res.Error{Code: "custom.p", Message: "pm"})
+					case "errorthenpanic":
+						r.Error(&res.Error{Code: "custom.valueError", Message: "value failed"})
+						panic("late")
 					default:
 						r.Model(map[string]interface{}{"v": 1})
 					}
@@ -584,7 +612,7 @@ func GenHandlers() *rapid.Generator[[]HandlerSpec] {
 			h.Calls = rapid.SampledFrom([][]string{nil, {"set"}, {"*"}, {"set", "*"}, {"new"}, {"foo", "bar", "new", "*"}, {"get"}}).Draw(t, "calls")
 			h.New = rapid.IntRange(0, 3).Draw(t, "new") == 0
 			h.Auths = rapid.SampledFrom([][]string{nil, {"login"}, {"*"}, {"login", "*"}}).Draw(t, "auths")
-			h.ValueMode = rapid.SampledFrom([]string{"ok", "ok", "error", "panic", "none"}).Draw(t, "vmode")
+			h.ValueMode = rapid.SampledFrom([]string{"ok", "ok", "error", "panic", "none", "qmodel", "collection", "qcollection", "notfound", "invalidquery", "invalidquerymsg", "nested", "requirenested", "double", "timeoutmodel", "panicreserror", "errorthenpanic"}).Draw(t, "vmode")
 			switch rapid.IntRange(0, 7).Draw(t, "grp") {
 			case 0, 1:
 				h.Group = "shared"
@@ -775,12 +803,20 @@ func Ctx(c *Case, rq *ReqSpec, d Dispatch) script.Ctx {
 		switch {
 		case !h.Get:
 			ctx.ValueErrCode, ctx.ValueErrMsg = res.CodeNotFound, "Not found"
-		case h.ValueMode == "error":
+		case h.ValueMode == "error" || h.ValueMode == "errorthenpanic":
 			ctx.ValueErrCode, ctx.ValueErrMsg = "custom.valueError", "value failed"
-		case h.ValueMode == "panic":
+		case h.ValueMode == "panic" || h.ValueMode == "nested" || h.ValueMode == "requirenested":
 			ctx.ValueErrCode, ctx.ValueErrMsg = res.CodeInternalError, ""
 		case h.ValueMode == "none":
 			ctx.ValueErrCode, ctx.ValueErrMsg = res.CodeInternalError, ""
+		case h.ValueMode == "notfound":
+			ctx.ValueErrCode, ctx.ValueErrMsg = res.CodeNotFound, "Not found"
+		case h.ValueMode == "invalidquery":
+			ctx.ValueErrCode, ctx.ValueErrMsg = res.CodeInvalidQuery, "Invalid query"
+		case h.ValueMode == "invalidquerymsg":
+			ctx.ValueErrCode, ctx.ValueErrMsg = res.CodeInvalidQuery, "bad q"
+		case h.ValueMode == "panicreserror":
+			ctx.ValueErrCode, ctx.ValueErrMsg = "custom.p", "pm"
 		}
 	}
 	return ctx
